@@ -30,7 +30,7 @@ add("C05", "E-SIM", "property-based testing: generated payload sizes around k*fr
 
 CACHE_NOTE = SIM_NOTE + "; reference model R-READER (DESIGN.md Appendix A) written from DDS 1.4, perfect network so arrival order == op order"
 add("C18", "E-SIM", "model-based property testing: generated write/read histories vs reference reader-cache model (history depth sub-oracle)",
-    "Held on N generated histories with KEEP_LAST depth 1..4 and max_samples_per_instance in {d, d+1, unlimited}, compared after every step.", CACHE_NOTE)
+    "Held on N generated histories with KEEP_LAST depth 1..4, max_samples_per_instance in {d, d+1, unlimited} and max_samples in {unlimited, d, 2d, 3d}, compared with the model after every step; 1 case in 4 mixes dispose/unregister notifications in and is judged by the invariant (never more than depth data samples per instance, only from the last depth written).", CACHE_NOTE)
 add("C19", "E-SIM", "model-based property testing: generated histories under small resource limits; model predicts every rejection (count, reason, instance) observed through the listener",
     "Held on N generated histories: reader side (model predicts every rejection) and writer side (KEEP_ALL writer with small limits, reader partitioned or reachable, dispose/unregister ops).", CACHE_NOTE)
 add("C20", "E-SIM", "model-based property testing: generated read/take calls with all mask combinations, max_samples and specific instances vs reference model (set, order, marking, removal, ranks, NoData)",
@@ -42,7 +42,7 @@ add("C22", "E-SIM", "model-based property testing: generated write/dispose/unreg
 add("C23", "E-SIM", "model-based property testing: generated read/take_next_instance walks over 5 instances with masks that leave instances without matches",
     "Held on N generated histories; an in-between instance holding only dispose/unregister notifications may be returned first (tolerance).", CACHE_NOTE)
 add("C24", "E-SIM", "model-based property testing: generated histories from 2-3 writers with distinct strengths under EXCLUSIVE ownership vs owner model",
-    "Held on N generated histories except the listed known finding (hand-over ignores stronger registered writer); equal strengths and deadline-driven hand-over not generated.", CACHE_NOTE)
+    "Held on N generated histories except the listed known finding (hand-over ignores stronger registered writer); 30 % of the cases add a TIME_BASED_FILTER and are judged by the invariant that nothing is presented that was written while a strictly stronger, still registered writer had written the instance; equal strengths and deadline-driven hand-over not generated.", CACHE_NOTE)
 add("C25", "E-SIM", "property-based testing: generated timestamps around minimum_separation; invariants over everything ever presented",
     "Two known findings (filter forgets taken samples; older-timestamp arrival) are excluded by signature; the in-cache in-order filter and the no-over-filtering direction stay guarded.", CACHE_NOTE)
 
@@ -50,24 +50,24 @@ add("C15", "E-SIM", "property-based testing: independently generated writer-side
     "Held on N generated QoS pairs; pattern-vs-pattern partitions not judged; callback multiplicity left to C33.", SIM_NOTE)
 
 add("C16", "E-SIM", "model-based property testing: generated create/delete/set_qos/partition/crash histories vs matched-set model (R-COUNT) plus wire monitor for traffic toward departed endpoints",
-    "Held on N generated histories over up to 3 remote endpoints; ignore_* not exercised.", SIM_NOTE)
+    "Held on N generated histories over up to 3 remote endpoints, including deletion and re-creation of the local endpoint (a ghost of a lost participant must not match it); ignore_* not exercised.", SIM_NOTE)
 
 add("C17", "E-SIM", "property-based testing: generated participant sets (domain id x tag), announcement fault tape with optional cross-domain delivery, crash instants and ignore; discovery/isolation/lease-window oracle in virtual time",
-    "Held on N generated configurations; only the 100 s lease dust-dds announces is exercised.", SIM_NOTE)
+    "Held on N generated configurations with per-participant clock offsets (INFO_TS rewritten), including an ignored participant that is deleted and whose old announcement arrives late; only the 100 s lease dust-dds announces is exercised.", SIM_NOTE)
 
 add("C03", "E-SIM", "property-based testing: generated writes + fault tape + reader deletion/crash while wait_for_acknowledgments is pending; soundness at the completion instant and bounded completion in virtual time",
     "Held on N generated schedules; bounded liveness only (5 s after heal, lease + 1.5 s after a silent crash).", SIM_NOTE)
 add("C04", "E-SIM", "property-based testing: generated pre/post-match writes, KEEP_LAST depth, late TRANSIENT_LOCAL/VOLATILE readers, catch-up fault tape; retained-history model",
-    "Held on N generated histories.", SIM_NOTE)
+    "Held on N generated histories (pre-match history with occasional dispose/unregister, reliable or best-effort late reader); lower bound (retained history arrives, wait_for_historical_data) and upper bound (nothing the KEEP_LAST writer had replaced before the match, no pre-match sample for a VOLATILE reader).", SIM_NOTE)
 add("C26", "E-SIM", "property-based testing: generated filter expressions/parameters/samples and arrival groupings (coalesced RTPS messages); presented set == predicate-filtered set",
-    "Held on N generated cases over the supported filter language (=, <= on int32/string members).", SIM_NOTE)
+    "Held on N generated cases over the supported filter language (=, <= on int32/string members), integer values near 0, +-2^24, 10^9 and the i32 limits.", SIM_NOTE)
 add("C27", "E-SIM", "property-based testing: generated write bursts against a partitioned/attacked reliable reader; blocking/timeout window and nothing-unacknowledged-dropped oracle, late-joiner depth probe",
-    "Held on N generated schedules.", SIM_NOTE)
+    "Held on N generated schedules (occasionally unregistering an instance before writing it).", SIM_NOTE)
 add("C29", "E-SIM", "property-based testing: generated lifespans, past source timestamps, partitions forcing late repairs and late joiners; wire monitor bounds the send time of every sample by timestamp + lifespan + one worker period",
     "Held on N generated schedules; send-side oracle plus never-presented for samples expired at write.", SIM_NOTE)
 
 add("C06", "E-SIM", "property-based testing / structure-aware fuzzing in the simulation: random bytes, mutated captured datagrams and structured adversarial RTPS messages (own encoder) spoofing discovered participants; oracle: no panic, CPU bound, allocation bounds, liveness with a never-spoofed newcomer",
-    "Held on N generated hostile datagram sequences; UDP locator conversion and libFuzzer corpus replay are covered by C07's engine.", SIM_NOTE)
+    "Held on N hostile datagram sequences: a constructed part (every product of the adversarial value classes of the numeric fields of each submessage kind, DATA_FRAG groups claiming to complete huge samples) and a generated part; regression cases of the repaired defects are replayed first; UDP locator conversion and libFuzzer corpus replay are covered by C07's engine.", SIM_NOTE)
 
 # checks built by helper engines: metadata comes from tools/fragments/<ID>.json
 FRAGMENT_ENGINE = {"C08": "E-CODEC", "C14": "E-CODEC", "C38": "E-CODEC", "C34": "E-CHAN", "C42": "E-RT", "C40": "E-GEN", "C41": "E-GEN",
